@@ -68,7 +68,10 @@ impl<'p> Interp<'p> {
 		if let syn::Expr::Path(p) = &*c.func {
 			let segs: Vec<String> = p.path.segments.iter().map(|s| s.ident.to_string()).collect();
 			if segs.len() == 1 && p.qself.is_none() {
-				let name = segs[0].clone();
+				let mut name = segs[0].clone();
+				if name == "Self" {
+					name = self.self_ty().unwrap_or_default();
+				}
 				// local closure / fn value
 				if let Some(cell) = self.lookup(&name) {
 					let f = cell.v.borrow().clone();
@@ -253,6 +256,15 @@ impl<'p> Interp<'p> {
 			}
 			let _ = p;
 			return self.call_fn(&d, Some(tyname.to_string()), args, tp);
+		}
+		// module-qualified free function (harness helper libraries)
+		if !self.is_user_type(tyname) {
+			if let Some(d) = self.prog.free_fns.get(item).cloned() {
+				if d.origin == crate::prog::Origin::Harness || tyname == "helpers" {
+					let args = self.eval_args(argexprs, Some(&d), false)?;
+					return self.call_fn(&d, None, args, HashMap::new());
+				}
+			}
 		}
 		// built-in static functions
 		let args = self.eval_args(argexprs, None, false)?;
